@@ -485,4 +485,107 @@ Theorem C06_dfpn_disproven_sound_nohit_on :
 Proof. exact dfpn_disproven_sound_nohit_on. Qed.
 Print Assumptions C06_dfpn_disproven_sound_nohit_on.
 
-(* Still not proved: the move returned by DFPN with `proven` (judged by the oracle). *)
+(* ================================================================================================================================
+   14. (third wave, worker prove3-cong)  (a) THE MOVE DFPN RETURNS WITH `proven`.  ProofResult.Move is entry.pv of the root entry;
+   mid sets current.pv to the move of the child it descends into, each time it descends, and the root entry starts with the zero
+   Move.  So a returned move of type <> 0 is the move of the last child the root loop descended into (DfpnMove.v):
+     attacker to move at the root: the loop goes on only while no child has delta = 0, so the child that closes the proof is the
+       one last descended into - the returned move is a generated legal move after which the attacker still has a forced win;
+     attacker NOT to move at the root (configured Attacker = the other player): `proven` means every reply of the defender is won;
+       the returned move is a generated legal move OF THE DEFENDER (the reply examined last) and the attacker has a forced win
+       after it as well.
+   Both cases are one statement.  The zero Move comes with `proven` when the root is solved while its children are generated or
+   the game is over at the root: no claim then (the known quirk).  Hypotheses on Sp as in block 5 (proven side).
+   The C06 oracle judges this move on every `proven` of fresh and reused solvers (class proven-move-loses; c06.go judge() is
+   called for every call of a solver sequence).
+   (b) The PN-squared twins of block 12's corollaries: blocks 10's two `_partial` statements without the congruence hypothesis
+   for roots inside PnCong3.cinv and for every replay from tak.New (PnCong6.v).
+   ================================================================================================================================ *)
+Require Import DfpnMove PnCong6.
+
+Theorem C06_dfpn_proven_move :
+  forall (basis : list N) (aw : bool) (Sp : position -> Prop),
+    (forall p m q, Sp p -> terminal aw p = None -> In m (all_moves p) -> dmv basis p m = Ok q -> Sp q) ->
+    (forall p, Sp p -> size p <= 8) ->
+    (forall p q, Sp p -> Sp q -> hash_of p = hash_of q ->
+       (W basis aw p <-> W basis aw q) /\ to_move_white p = to_move_white q /\ terminal aw p = terminal aw q) ->
+    (forall p, Sp p -> hash_of p <> 0) ->
+    (forall p, Sp p -> terminal aw p = None -> all_moves p <> []) ->
+    (forall p, Sp p -> terminal aw p = None -> solve p <> None -> attp aw p = true -> W basis aw p) ->
+    forall lfuel dfuel entries g s e w,
+      Sp g -> prove basis aw lfuel dfuel entries g = (s, e, w) -> result_of aw g e = 1 -> mT (d_pv e) <> 0 ->
+      exists q, In (d_pv e) (all_moves g) /\ dmv basis g (d_pv e) = Ok q /\
+                exists n, wn position (succs basis) (terminal aw) (attp aw) n q = true.
+Proof. exact dfpn_proven_move. Qed.
+Print Assumptions C06_dfpn_proven_move.
+
+(* 14b. from any solver state whose table holds sound entries *)
+Theorem C06_dfpn_proven_move_from :
+  forall (basis : list N) (aw : bool) (Sp : position -> Prop),
+    (forall p m q, Sp p -> terminal aw p = None -> In m (all_moves p) -> dmv basis p m = Ok q -> Sp q) ->
+    (forall p, Sp p -> size p <= 8) ->
+    (forall p q, Sp p -> Sp q -> hash_of p = hash_of q ->
+       (W basis aw p <-> W basis aw q) /\ to_move_white p = to_move_white q /\ terminal aw p = terminal aw q) ->
+    (forall p, Sp p -> hash_of p <> 0) ->
+    (forall p, Sp p -> terminal aw p = None -> all_moves p <> []) ->
+    (forall p, Sp p -> terminal aw p = None -> solve p <> None -> attp aw p = true -> W basis aw p) ->
+    forall lfuel dfuel s0 g s e w,
+      table_ok basis aw Sp s0 -> Sp g -> prove_from basis aw lfuel dfuel s0 g = (s, e, w) -> result_of aw g e = 1 -> mT (d_pv e) <> 0 ->
+      exists q, In (d_pv e) (all_moves g) /\ dmv basis g (d_pv e) = Ok q /\
+                exists n, wn position (succs basis) (terminal aw) (attp aw) n q = true.
+Proof. exact dfpn_proven_move_from. Qed.
+Print Assumptions C06_dfpn_proven_move_from.
+
+(* 14c. one call of a reused solver: `proven` and its move (sv_ok: if the solver was last used for this attacker its table holds
+   sound entries; a fresh dsolver does) *)
+Theorem C06_dfpn_on_proven :
+  forall (basis : list N) (aw : bool) (Sp : position -> Prop),
+    (forall p m q, Sp p -> terminal aw p = None -> In m (all_moves p) -> dmv basis p m = Ok q -> Sp q) ->
+    (forall p, Sp p -> size p <= 8) ->
+    (forall p q, Sp p -> Sp q -> hash_of p = hash_of q ->
+       (W basis aw p <-> W basis aw q) /\ to_move_white p = to_move_white q /\ terminal aw p = terminal aw q) ->
+    (forall p, Sp p -> hash_of p <> 0) ->
+    (forall p, Sp p -> terminal aw p = None -> all_moves p <> []) ->
+    (forall p, Sp p -> terminal aw p = None -> solve p <> None -> attp aw p = true -> W basis aw p) ->
+    forall lfuel dfuel cfg_attacker sv g sv' s e w r,
+      aw = match cfg_attacker with 1 => true | 2 => false | _ => to_move_white g end ->
+      Sp g -> sv_ok basis aw Sp sv -> prove_on basis lfuel dfuel cfg_attacker sv g = (sv', (s, e, w, r)) ->
+      sv_ok basis aw Sp sv' /\
+      (r = 1 -> W basis aw g /\
+                (mT (d_pv e) <> 0 -> exists q, In (d_pv e) (all_moves g) /\ dmv basis g (d_pv e) = Ok q /\ W basis aw q)).
+Proof. exact dfpn_on_proven. Qed.
+Print Assumptions C06_dfpn_on_proven.
+
+(* 14d. PN-squared against the attractor, roots that are positions of a game / of real games *)
+Theorem C06_pn2_proven_rules : forall c b iters dfuel k2 dfuel2 maxnodes preserve maxdepth pn2 (p : position) root s mv why,
+  cinv c b p ->
+  pn2_run iters dfuel k2 dfuel2 maxnodes preserve maxdepth pn2 p = (root, s, 1, mv, why) ->
+  exists k, Wb position pos_equal (succs gen_basis) (terminal (to_move_white p)) (attp (to_move_white p)) k [] p.
+Proof. exact pn2_run_proven_rules. Qed.
+Print Assumptions C06_pn2_proven_rules.
+
+Theorem C06_pn2_disproven_attractor : forall c b iters dfuel k2 dfuel2 maxnodes preserve maxdepth pn2 (p : position) root s mv why,
+  cinv c b p -> (0 <= maxdepth)%Z ->
+  pn2_run iters dfuel k2 dfuel2 maxnodes preserve maxdepth pn2 p = (root, s, 2, mv, why) ->
+  wn position (succs gen_basis) (terminal (to_move_white p)) (attp (to_move_white p)) (Z.to_nat (eff_maxdepth maxdepth)) p = false.
+Proof. exact pn2_run_disproven_attractor. Qed.
+Print Assumptions C06_pn2_disproven_attractor.
+
+Theorem C06_pn2_proven_rules_reachable :
+  forall sz bwt stones caps ms iters dfuel k2 dfuel2 maxnodes preserve maxdepth pn2 (p : position) root s mv why,
+  3 <= sz <= 8 -> 2 * (stones + caps) <= 64 -> replay (new_pos sz bwt stones caps) ms = Ok p ->
+  pn2_run iters dfuel k2 dfuel2 maxnodes preserve maxdepth pn2 p = (root, s, 1, mv, why) ->
+  exists k, Wb position pos_equal (succs gen_basis) (terminal (to_move_white p)) (attp (to_move_white p)) k [] p.
+Proof. exact pn2_run_proven_rules_reachable. Qed.
+Print Assumptions C06_pn2_proven_rules_reachable.
+
+Theorem C06_pn2_disproven_attractor_reachable :
+  forall sz bwt stones caps ms iters dfuel k2 dfuel2 maxnodes preserve maxdepth pn2 (p : position) root s mv why,
+  3 <= sz <= 8 -> 2 * (stones + caps) <= 64 -> replay (new_pos sz bwt stones caps) ms = Ok p -> (0 <= maxdepth)%Z ->
+  pn2_run iters dfuel k2 dfuel2 maxnodes preserve maxdepth pn2 p = (root, s, 2, mv, why) ->
+  wn position (succs gen_basis) (terminal (to_move_white p)) (attp (to_move_white p)) (Z.to_nat (eff_maxdepth maxdepth)) p = false.
+Proof. exact pn2_run_disproven_attractor_reachable. Qed.
+Print Assumptions C06_pn2_disproven_attractor_reachable.
+
+(* the general forms over prove_pn2 (any pcfg, any threshold): PnCong6.pn2_proven_rules_cinv / pn2_disproven_attractor_cinv *)
+
